@@ -11,6 +11,7 @@
    plugin is one value, [None] / [RRaise] / [HwRaise]. *)
 From Coq Require Import List NArith ZArith Bool Arith.
 From PV Require Import Base.Bytes Base.Lit Base.Json Base.Utf8 Base.Reader Model.Hexdump.
+From PV Require Model.JsonLoads.
 Import ListNotations.
 Open Scope N_scope.
 
@@ -194,13 +195,19 @@ Definition parse_register_dump (cd : chipdata) (data : bytes) : hw_result :=
            l <~ chip_loop cd (S (length data)) (S (length data)) n ;;
            hret (JObj [(L "Register Dump", jstrs l)])) data).
 
-(* data.tobytes().rstrip(b'\0').decode('utf8') then json.loads: the marker object {"@loads": s} stands for
-   "whatever json.loads(s) gives" (the harness applies Python's own json.loads; if that raises, so does
-   the plugin) *)
+(* data.tobytes().rstrip(b'\0').decode('utf8') then json.loads (Model/JsonLoads.v); if that raises, so does the plugin.
+   Only where the model of json.loads does not decide (a float in the value, very deep nesting) the marker object
+   {"@loads": s} stands for "whatever json.loads(s) gives" and the harness applies Python's own json.loads *)
 Definition loads_marker (s : text) : json := JObj [(L "@loads", JStr s)].
+Definition ffdc_of_text (s : text) : hw_result :=
+  match JsonLoads.loads s with
+  | JsonLoads.LOk j => HwOk (JObj [(L "Callout List FFDC", j)])
+  | JsonLoads.LError => HwRaise
+  | JsonLoads.LBeyond => HwOk (JObj [(L "Callout List FFDC", loads_marker s)])
+  end.
 Definition parse_callout_ffdc (data : bytes) : hw_result :=
   match utf8_decode (rstrip_nul data) with
-  | Some s => HwOk (JObj [(L "Callout List FFDC", loads_marker s)])
+  | Some s => ffdc_of_text s
   | None => HwRaise
   end.
 
